@@ -110,12 +110,14 @@ PROPS = {
         ],
     },
     "C12": {
-        "explanation": "OUTPARAM (callee side): out-parameter summaries by trace-partitioned interval analysis: a result parameter stored on one non-error return is stored on all "
+        "explanation": "IDFIT: interval proof over mpt_message_id2buf() for each header width 1..8 (trace partition on the remaining length unrolls the byte loop, array elements at constant "
+                       "indices are tracked): every id the width table permits is accepted, ids with the reply marker bit or needing more bytes are refused. "
+                       "OUTPARAM (callee side): out-parameter summaries by trace-partitioned interval analysis: a result parameter stored on one non-error return is stored on all "
                        "(mpt_message_buf2id and every int function with scalar results in the anchor files). IDWIDTH: the per-width maximum in mpt_command_reserve equals "
                        "2^(8w-1)-1 and the id writer tests the reply marker bit. CONVTYPE: every convert() implementation in the anchor files that answers `type == K` stores a "
                        "pointer to the record type (or a record starting with it) that the consumers of K in the whole program declare. LENCLEARED: in reply senders every "
                        "path from an accepted transport call to the return clears the armed id length. UNINITCTX: context aggregates passed with a callback are initialised first.",
-        "not_decided": "at-most-once over arm/reply/defer/release histories with a failing transport; id round trip for every value and width (only the width table and marker test)",
+        "not_decided": "at-most-once over arm/reply/defer/release histories with a failing transport; the reader side mpt_message_buf2id beyond its result-parameter discipline",
         "assumptions": [],
         "technique": "interprocedural out-parameter summaries (trace-partitioned intervals), table check, provider/consumer pointer-type agreement, typestate on the send/clear pair",
         "level_text": "Four structural necessary conditions of 'each request answered at most once, to the right requester', each enumerated over all functions of the anchor files.",
@@ -123,6 +125,7 @@ PROPS = {
         "rules": [
             {"run": rules_reply.run_outparam_callee, "floor": 1, "use_anchor_files": True},
             {"run": rules_reply.run_idwidth, "floor": 8},
+            {"run": rules_reply.run_idfit, "floor": 23},
             {"run": rules_reply.run_convtype, "floor": 5, "use_anchor_files": True},
             {"run": rules_reply.run_lencleared, "floor": 1, "use_anchor_files": True},
             {"run": rules_reply.run_uninitctx, "floor": 2, "use_anchor_files": True},
